@@ -138,7 +138,7 @@ def make_machine(acc):
                 return data.draw(st.integers(0, PA_MASK))
             return data.draw(st.sampled_from(self.addrs))
 
-        @rule(data=st.data(), size=st.sampled_from(SIZES), value=st.integers(0, 2 ** 64 - 1))
+        @rule(data=st.data(), size=st.sampled_from(SIZES), value=st.integers(0, 2 ** 64 - 1).map(lambda x: (x * 0x9E3779B97F4A7C15 + 0x1234567) & (2 ** 64 - 1)))
         def write(self, data, size, value):
             a = self._addr(data)
             op = ('w', a, size, value & ((1 << (8 * size)) - 1))
